@@ -229,12 +229,12 @@ pub fn seeded_runs(ctx: &mut Ctx, prop: &str, oracles: u32, clauses: u32, quick_
         seeded_group(ctx, prop, oracles, clauses, 2, vec![3, 200], &specs, 60_000, 10.0);
         if !quick_only {
             // chain links that need three bytes on disk (key file beyond 128 KiB) while value offsets need two
-            let specs128 = vec![SeedSpec { file: "key", boundary: 128 * 1024, eps: 0, free_slots: 2, val_pad: 1200 }];
+            let specs128 = vec![SeedSpec { file: "key", boundary: 128 * 1024, eps: 0, free_slots: 2, val_pad: 1200 }, SeedSpec { file: "val", boundary: 128 * 1024, eps: 16, free_slots: 2, val_pad: 0 }];
             seeded_group(ctx, prop, oracles, clauses, 2, vec![3, 200], &specs128, 30_000, 8.0);
         }
         if !quick_only {
             let specs3 = vec![SeedSpec { file: "val", boundary: 16 * 1024, eps: 16, free_slots: 0 , val_pad: 0}, SeedSpec { file: "key", boundary: 16 * 1024, eps: 16, free_slots: 0 , val_pad: 0}];
-            seeded_group(ctx, prop, oracles, clauses, 3, vec![3, 200], &specs3, 60_000, 4.0);
+            seeded_group(ctx, prop, oracles, clauses, 3, vec![3, 200], &specs3, 60_000, 3.0);
         }
     }
 }
@@ -303,7 +303,7 @@ pub fn c08(tier: &str, seed: u64) -> i32 {
         cfg.oracles = o;
         cfg.clauses = clauses;
         let starts: Vec<Start> = empty_start(&mut ctx, &cfg).into_iter().collect();
-        let (cap, secs) = if thorough { (1_500_000, 300.0) } else { (150_000, 5.0) };
+        let (cap, secs) = if thorough { (1_500_000, 300.0) } else { (150_000, 4.0) };
         run_closure(&mut ctx, &format!("{} from the empty map [bytes]", a.label), &cfg, starts, cap, secs);
     }
     {
@@ -313,7 +313,7 @@ pub fn c08(tier: &str, seed: u64) -> i32 {
         cfg.oracles = o;
         cfg.clauses = clauses;
         let starts: Vec<Start> = empty_start(&mut ctx, &cfg).into_iter().collect();
-        let (cap, secs) = if thorough { (1_000_000, 200.0) } else { (100_000, 3.5) };
+        let (cap, secs) = if thorough { (1_000_000, 200.0) } else { (100_000, 3.0) };
         run_closure(&mut ctx, &format!("{} from the empty map [bytes]", a.label), &cfg, starts, cap, secs);
     }
     {
@@ -323,7 +323,7 @@ pub fn c08(tier: &str, seed: u64) -> i32 {
         cfg.oracles = o;
         cfg.clauses = clauses;
         let starts: Vec<Start> = empty_start(&mut ctx, &cfg).into_iter().collect();
-        let (cap, secs) = if thorough { (1_000_000, 200.0) } else { (100_000, 4.0) };
+        let (cap, secs) = if thorough { (1_000_000, 200.0) } else { (100_000, 3.0) };
         run_closure(&mut ctx, &format!("{} from the empty map [bytes]", a.label), &cfg, starts, cap, secs);
     }
     if thorough {
